@@ -866,7 +866,9 @@ func (d *hoDriver) mutatedProcess(h int64, round, proposer int, now time.Time, v
 	}
 	c.Eng.SetFault(nil)
 	c.Eng.TakeLog()
-	d.emit("process", Ev{"h": h, "proposer": proposer + 1, "replica": "B", "mut": mut, "accept": accept, "p": d.describe(c, txs, answer, sigOk, restOk)})
+	if !skew { // (a time stamp 2 s ahead: "in the future" may stop being true between the call and its description - not recorded)
+		d.emit("process", Ev{"h": h, "proposer": proposer + 1, "replica": "B", "mut": mut, "accept": accept, "p": d.describe(c, txs, answer, sigOk, restOk)})
+	}
 	// A block other validators decided although this node would have refused it: FinalizeBlock must still apply its own
 	// checks to the execution-block message (the head moves only by valid children, C09) and must not fail. The replica
 	// then crashes before Commit, so nothing of it persists.
